@@ -167,29 +167,32 @@ theorem ukf_linear_eq_kf (pinv : Mat ℝ p p → Mat ℝ p p)
   simp only [Matrix.mul_assoc]
   rfl
 
-/-- **Histories, UKF.** A run of any length of UKF calls on a (possibly time-varying) linear-Gaussian
-system equals the Kalman filter run, for every `k > -n`; the covariance stays positive semidefinite, so
-the square-root contract is applicable at every call. -/
+/-- **Histories, UKF.** A run of any length of UKF calls on one filter object, on a (possibly time-varying)
+linear-Gaussian system, **each call with its own sigma-point parameter `k > -n`** (and its own `u, y, Q, R`),
+equals the Kalman filter run; the covariance stays positive semidefinite, so the square-root contract is
+applicable at every call. In particular the result of a call does not depend on the `k` of earlier calls. -/
 theorem ukf_run_eq_kf_run (pinv : Mat ℝ p p → Mat ℝ p p)
     (hpinv : ∀ S : Matrix (Fin p) (Fin p) ℝ, IsUnit S.det → pinv S = S⁻¹)
     (msqrt : Matrix (Fin n) (Fin n) ℝ → Matrix (Fin n) (Fin n) ℝ)
     (hsqrt : ∀ M : Matrix (Fin n) (Fin n) ℝ, M.PosSemidef → msqrt M * (msqrt M)ᵀ = M)
-    (kk : ℝ) (hk : -(n : ℝ) < kk)
-    (steps : List (LinStep n m p)) (hs : ∀ l ∈ steps, l.ok) (b : Belief n) (hb : b.cov.PosSemidef) :
-    (runUKF pinv msqrt kk (steps.map LinStep.toStep) ⟨b.mean, b.cov⟩).x = (kalmanRun steps b).mean ∧
-    (runUKF pinv msqrt kk (steps.map LinStep.toStep) ⟨b.mean, b.cov⟩).P = (kalmanRun steps b).cov ∧
-    (kalmanRun steps b).cov.PosSemidef := by
-  induction steps generalizing b with
+    (calls : List (ℝ × LinStep n m p)) (hs : ∀ c ∈ calls, -(n : ℝ) < c.1 ∧ c.2.ok)
+    (b : Belief n) (hb : b.cov.PosSemidef) :
+    (runUKF pinv msqrt (calls.map fun c => (c.1, c.2.toStep)) ⟨b.mean, b.cov⟩).x
+        = (kalmanRun (calls.map Prod.snd) b).mean ∧
+    (runUKF pinv msqrt (calls.map fun c => (c.1, c.2.toStep)) ⟨b.mean, b.cov⟩).P
+        = (kalmanRun (calls.map Prod.snd) b).cov ∧
+    (kalmanRun (calls.map Prod.snd) b).cov.PosSemidef := by
+  induction calls generalizing b with
   | nil => exact ⟨rfl, rfl, hb⟩
-  | cons l rest ih =>
-    have hl : l.ok := hs l (by simp)
-    have h1 := ukf_linear_eq_kf pinv hpinv msqrt hsqrt kk hk l hl b hb
-    have hpost : ukf pinv msqrt kk l.toStep ⟨b.mean, b.cov⟩ = ⟨(l.kalman b).mean, (l.kalman b).cov⟩ := by
-      rcases h : ukf pinv msqrt kk l.toStep ⟨b.mean, b.cov⟩ with ⟨x', P'⟩
+  | cons c rest ih =>
+    obtain ⟨hk, hl⟩ := hs c (by simp)
+    have h1 := ukf_linear_eq_kf pinv hpinv msqrt hsqrt c.1 hk c.2 hl b hb
+    have hpost : ukf pinv msqrt c.1 c.2.toStep ⟨b.mean, b.cov⟩ = ⟨(c.2.kalman b).mean, (c.2.kalman b).cov⟩ := by
+      rcases h : ukf pinv msqrt c.1 c.2.toStep ⟨b.mean, b.cov⟩ with ⟨x', P'⟩
       rw [h] at h1
       simp only at h1
       rw [h1.1, h1.2]
-    have := ih (fun l' hl' => hs l' (by simp [hl'])) (l.kalman b) (l.kalman_cov_psd hl hb)
+    have := ih (fun c' hc' => hs c' (by simp [hc'])) (c.2.kalman b) (c.2.kalman_cov_psd hl hb)
     simpa only [runUKF, kalmanRun, List.map_cons, List.foldl_cons, hpost] using this
 
 /-- **UKF covariance is valid whenever the centre weight is non-negative** (`k ≥ 0`, `n + k > 0`), for an
